@@ -295,6 +295,7 @@ func recvCmd(args []string) int {
 	defer tw.Close()
 	st := drv.NewStats()
 	if c.Replay != "" {
+		st.Sample("replay of " + c.Replay)
 		for _, rc := range drv.ReadCases(c.Replay) {
 			runRecvCase(tw, st, rc.ID, rc.Init, rc.OpLines)
 		}
